@@ -256,6 +256,72 @@ fn f64_2d(d: &mut Draw) -> Outcome {
     pass(if use_deg { "deg" } else { "rad" }, s.abs() > 1e-3 && c.abs() > 1e-3)
 }
 
+/// native floats: r * invert(r) = invert(r) * r = one() for every rotation value r - a constructor's output, or what the
+/// library's own composition makes of up to 2600 such outputs (about a common axis, or about several): the product of
+/// rotations is the rotation r the clause speaks of, rounding drift and all, and invert(r) is its inverse, not that of
+/// an idealised r
+macro_rules! invert_composed {
+    ($fname:ident, $F:ty) => {
+        fn $fname(d: &mut Draw) -> Outcome {
+            type F = $F;
+            let n = match d.int(0, 4) {
+                0 => 1,
+                1 => d.int(2, 12),
+                2 => d.int(13, 300),
+                _ => d.int(301, 2600),
+            } as usize;
+            let common = d.bool();
+            let axes: Vec<Vector3<F>> = (0..3).map(|_| { let a = f_unit3(d); Vector3::new(a[0] as F, a[1] as F, a[2] as F).normalize() }).collect();
+            let angs: Vec<F> = (0..4).map(|_| if d.chance(1, 4) { (d.int(-360, 360) as F).to_radians() } else { d.f64_in(-3.2, 3.2) as F }).collect();
+            let v = Vector3::new(d.f64_in(-10.0, 10.0) as F, d.f64_in(-10.0, 10.0) as F, d.f64_in(-10.0, 10.0) as F);
+            d.note("factors, common axis?", &(n, common));
+            d.note("axes", &axes);
+            d.note("angles (rad), used cyclically", &angs);
+            let ax = |j: usize| if common { axes[0] } else { axes[j % 3] };
+            let qs: Vec<Quaternion<F>> = (0..n).map(|j| Rotation3::from_axis_angle(ax(j), Rad(angs[j % 4]))).collect();
+            let bs: Vec<Basis3<F>> = (0..n).map(|j| Rotation3::from_axis_angle(ax(j), Rad(angs[j % 4]))).collect();
+            let b2s: Vec<Basis2<F>> = (0..n).map(|j| Rotation2::from_angle(Rad(angs[j % 4]))).collect();
+            let (q, b, b2): (Quaternion<F>, Basis3<F>, Basis2<F>) = if d.bool() {
+                (qs.iter().product(), bs.iter().product(), b2s.iter().product())
+            } else {
+                (qs.iter().fold(Quaternion::one(), |a, x| a * *x), bs.iter().fold(Basis3::one(), |a, x| a * *x), b2s.iter().fold(Basis2::one(), |a, x| a * *x))
+            };
+            let tol = 64.0 * F::EPSILON;
+            let vl = v.x.abs() + v.y.abs() + v.z.abs();
+            // quaternion
+            let qi = Rotation::invert(&q);
+            for (name, pr) in [("q * invert(q)", q * qi), ("invert(q) * q", qi * q)] {
+                let e = (pr.s - 1.0).abs().max(pr.v.x.abs()).max(pr.v.y.abs()).max(pr.v.z.abs());
+                ensure!(e <= tol, "quaternion-invert", "{} differs from one() by {:e} for the product of {} rotations (|q| = {:?})", name, e, n, q.magnitude());
+            }
+            // (q * v is the rotation formula only for unit q, so "invert undoes rotate_vector" is not claimed of a drifted
+            // quaternion - the clause is about the product of the two values)
+            // Basis3
+            let bi = Rotation::invert(&b);
+            for (name, pr) in [("b * invert(b)", b * bi), ("invert(b) * b", bi * b)] {
+                let m: Matrix3<F> = pr.into();
+                let e = m.rm().max_abs_diff(&RM::ident(3));
+                ensure!(e <= tol, "basis3-invert", "{} differs from one() by {:e} for the product of {} rotations", name, e, n);
+            }
+            let back = bi.rotate_vector(b.rotate_vector(v));
+            ensure!((back - v).magnitude() <= 4.0 * tol * vl, "basis3-invert-undoes", "invert(b) does not undo b on v: off by {:e}", (back - v).magnitude());
+            // Basis2
+            let b2i = Rotation::invert(&b2);
+            for (name, pr) in [("b * invert(b)", b2 * b2i), ("invert(b) * b", b2i * b2)] {
+                let m: Matrix2<F> = pr.into();
+                let e = m.rm().max_abs_diff(&RM::ident(2));
+                ensure!(e <= tol, "basis2-invert", "{} differs from one() by {:e} for the product of {} plane rotations", name, e, n);
+            }
+            let v2 = Vector2::new(v.x, v.y);
+            let back = b2i.rotate_vector(b2.rotate_vector(v2));
+            ensure!((back - v2).magnitude() <= 4.0 * tol * vl, "basis2-invert-undoes", "invert(b) does not undo b on v: off by {:e}", (back - v2).magnitude());
+            pass(if n == 1 { "constructor-output" } else if n <= 12 { "2-to-12-factors" } else if n <= 300 { "13-to-300-factors" } else { "301-to-2600-factors" }, true)
+        }
+    };
+}
+invert_composed!(invert_composed_f64, f64);
+invert_composed!(invert_composed_f32, f32);
+
 const RULE: &str = "sin t and cos t both non-zero with |sin t| != |cos t|; axis with three distinct non-zero components; generic vector";
 
 pub fn property() -> Property {
@@ -270,6 +336,9 @@ pub fn property() -> Property {
     add!("from_angle_2d-Q", "Q", exact_2d, 4000, 250_000, 32, &[("generic", 200)]);
     add!("axis_angle-f64", "f64", f64_3d, 6000, 400_000, 64, &[("rad", 200), ("deg", 200)]);
     add!("from_angle_2d-f64", "f64", f64_2d, 4000, 200_000, 16, &[("rad", 200), ("deg", 200)]);
+    const INV: &[(&str, u32)] = &[("constructor-output", 100), ("2-to-12-factors", 100), ("13-to-300-factors", 100), ("301-to-2600-factors", 200)];
+    add!("invert_composed-f64", "f64", invert_composed_f64, 400, 20_000, 48, INV);
+    add!("invert_composed-f32", "f32", invert_composed_f32, 400, 20_000, 48, INV);
     Property {
         id: "C06",
         title: "Angle and axis-angle constructors give proper right-handed rotations",
